@@ -397,32 +397,53 @@ func (r *lsmRun) snapshotReads() map[string]string {
 	return out
 }
 
-// commitOne commits a one-key transaction and reports the commit version it got.
+// commitOne commits a one-key transaction (a put, a put that is already expired, or a delete)
+// and reports the commit version it got.
 func (r *lsmRun) commitOne() {
 	user := corr.Pick(r.c.Rng, lsmUserKeys)
 	r.seq++
 	val := []byte(fmt.Sprintf("t%d", r.seq))
+	kind := r.c.Rng.Intn(5)
+	meta, exp := byte(0), uint64(0)
 	txn := r.db.NewTransaction(true)
-	if err := txn.Set(user, val); err != nil {
+	var err error
+	switch kind {
+	case 0:
+		err = txn.Delete(user)
+		meta = kv.BitDelete
+	case 1:
+		e := kv.NewEntry(user, val)
+		e.ExpiresAt = 1 // expired long ago: readable through the versioned API, dead for Get
+		exp = 1
+		err = txn.SetEntry(e)
+	default:
+		err = txn.Set(user, val)
+	}
+	if err != nil {
 		panic(err)
 	}
 	if err := txn.Commit(); err != nil {
 		panic(err)
 	}
 	bk := baseKey(kv.CFDefault, user)
+	// the freshly committed record is the newest version of this key in the active memtable
 	var ver uint64
 	found := false
 	for _, e := range r.layout().Active.Entries {
-		if bytes.Equal(e.Value, val) {
-			ver = kv.ParseTs(e.Key)
-			found = true
+		if bytes.Equal(e.Key[:len(e.Key)-8], bk) {
+			if v := kv.ParseTs(e.Key); v > ver && v != math.MaxUint64 {
+				ver, found = v, true
+			}
 		}
 	}
 	if !found {
 		panic("committed entry not found in the active memtable")
 	}
-	r.emit(fmt.Sprintf("XCommit (Rc %s %d %s 0 0 %d)", corr.Hex(bk), ver, corr.Hex(val), r.seq),
-		fmt.Sprintf("txn commit key=%q val=%q -> version %d", user, val, ver))
+	if meta == kv.BitDelete {
+		val = nil
+	}
+	r.emit(fmt.Sprintf("XCommit (Rc %s %d %s %d %d %d)", corr.Hex(bk), ver, corr.Hex(val), meta, exp, r.seq),
+		fmt.Sprintf("txn commit key=%q val=%q meta=%d exp=%d -> version %d", user, val, meta, exp, ver))
 	s := string(bk)
 	if r.touched[s] == nil {
 		r.touched[s] = map[uint64]bool{}
@@ -473,6 +494,10 @@ func (r *lsmRun) program(p lsmProfile) {
 	next := r.next
 	val := 0
 	doPut := func() {
+		if p.reopenHeavy {
+			r.commitOne()
+			return
+		}
 		cf := kv.CFDefault
 		if rng.Intn(6) == 0 {
 			cf = kv.CFWrite
@@ -546,6 +571,13 @@ func (r *lsmRun) program(p lsmProfile) {
 
 // scripted regression programs, run before the random ones
 var lsmScripts = map[string][]string{
+	// newest versions live only in an ingest buffer when the DB is reopened: the next commit timestamp must still exceed them
+	"ingest_reopen": {"putv a 5 1", "putv b 9 2", "rotate", "flush", "move", "reopen", "read", "commit", "read", "reopen", "read"},
+	// an expired overwrite that only lives in the WAL must survive reopen (it shadows the older flushed value)
+	"ttl_reopen": {"commit", "commit", "commit", "rotate", "flush", "commit", "commit", "commit", "commit", "commit", "commit", "read", "reopen", "read", "reopen", "read"},
+	// newer copy parked in the ingest buffer of the level whose main run holds the older copy
+	"ingest_over_main":       {"putv a 1 1", "putv b 1 2", "rotate", "flush", "move", "drain", "read", "putv a 2 3", "rotate", "flush", "move", "read", "reopen", "read"},
+	"ingest_over_main_plain": {"put a 1", "put b 2", "rotate", "flush", "move", "drain", "read", "put a 3", "rotate", "flush", "move", "read"},
 	// equal-version copies in two L0 tables (F1, repaired): the newer flush must win
 	"l0_tie": {"put a 1", "rotate", "flush", "put a 2", "rotate", "flush", "read", "put a del", "rotate", "flush", "read", "reopen", "read"},
 	// the same through a move into one ingest buffer
@@ -610,6 +642,9 @@ func runScriptLsm(c *corr.Ctx, name string, plain bool) {
 	flushGate.setOpen(false)
 	r.open()
 	first := r.layout().Active.SegmentID
+	if _, ok := lsmScripts[name]; !ok {
+		panic("unknown script " + name)
+	}
 	r.script(lsmScripts[name], plain)
 	r.closeDB()
 	c.Count("script_" + name)
@@ -644,15 +679,15 @@ func runLsm(c *corr.Ctx) error {
 		n = c.Scale(5, 400)
 	}
 	if plain {
-		for _, name := range []string{"l0_tie", "ingest_tie", "ingest_tie2", "drain_overlap_plain"} {
+		for _, name := range []string{"l0_tie", "ingest_tie", "ingest_tie2", "drain_overlap_plain", "ingest_over_main_plain"} {
 			runScriptLsm(c, name, true)
 		}
 	} else if c.Prop == "C12" {
-		for _, name := range []string{"ingest_reopen", "mono"} {
+		for _, name := range []string{"ingest_reopen", "ttl_reopen", "mono"} {
 			runScriptLsm(c, name, false)
 		}
 	} else {
-		for _, name := range []string{"order", "mono", "l0_tie", "drain_overlap"} {
+		for _, name := range []string{"order", "mono", "l0_tie", "drain_overlap", "ingest_over_main"} {
 			runScriptLsm(c, name, false)
 		}
 	}
